@@ -101,6 +101,11 @@ def stage_cfgs(pid, tier, rng):
                     mc.append(C(inputs=[[1, 2, 3]], **base))
                     gen.append(C(inputs=[[1, 2, 3]] if not gate else [[1, 2]], **base))
                     rnd.append(C(inputs=[[1, 2, 3, 4]], **base))
+            if kind in ("Filter", "Partition", "TakeWhile"):
+                # a predicate that fails on an element: whatever it returns, the stage must still close / terminate / not leak
+                for mode in ("lift", "try"):
+                    c = C(kind=kind, cap=1, mode=mode, inputs=[[1, 2, 3]], pred=[1, 2, 3], fail=[2])
+                    mc.append(c); gen.append(c); rnd.append(C(kind=kind, cap=0, mode=mode, inputs=[[1, 2, 3, 4]], pred=[1, 2, 4], fail=[2, 3]))
             if kind in ("Map", "FMap"):
                 for mode in ("lift", "try"):
                     c = C(kind=kind, cap=1, mode=mode, inputs=[[1, 2, 3]], fail=[2], stderr=True)
@@ -169,6 +174,8 @@ def stage_cfgs(pid, tier, rng):
         for par in [1, 2, 3]:
             for ln in (0, 2, 4):
                 rnd.append(C(kind="Fold", forked=True, par=par, cap=1, monoid="sumref", inputs=[[2, 3, 4, 5][:ln]], gate=ln == 2))
+                # set union over a map-typed (non-comparable) carrier
+                rnd.append(C(kind="Fold", forked=True, par=par, cap=1, monoid="orset", inputs=[[1, 2, 4, 3][:ln]], gate=ln == 2))
         for par in [1, 2, 3, 4]:
             for mono in ("sum", "prod", "max", "min", "and", "or"):
                 vals = {"and": [6, 5, 3, 7], "or": [1, 2, 4, 1]}.get(mono, [2, 3, 4, 5])
@@ -589,6 +596,9 @@ def other_cfgs(pid, th, rng):
                     if pid == "C07" and mode == "pure":
                         continue
                     out.append(C(kind="Emit", cap=cap, freq=freq, mode=mode, fail=fail, gate=False))
+                    if cap == 1 and mode == "pure":
+                        out.append(C(kind="Emit", cap=cap, freq=freq, mode=mode, fail=fail, gate=False, unit_ns=19000003))
+                        out.append(C(kind="Emit", cap=cap, freq=freq, mode=mode, fail=fail, gate=False, unit_ns=100003))
                     if cap < 2:
                         out.append(C(kind="Emit", cap=cap, freq=freq, mode=mode, fail=fail, gate=True))
             for step in ("succ", "double", "const"):
@@ -615,6 +625,10 @@ def other_cfgs(pid, th, rng):
             for iv in [2, 3]:
                 for cap in [0, 1, 2]:
                     out.append(C(kind="Throttling", cap=cap, ops=ops, interval=iv, inputs=[list(range(1, 9))]))
+                    if cap == 1:
+                        # sub-millisecond and odd units of time (the interval is iv units of 100.003 us / 25.007 ms)
+                        out.append(C(kind="Throttling", cap=cap, ops=ops, interval=iv, inputs=[list(range(1, 9))], unit_ns=100003))
+                        out.append(C(kind="Throttling", cap=cap, ops=ops, interval=iv, inputs=[list(range(1, 9))], unit_ns=25007000))
                     if ops == 2:
                         out.append(C(kind="Throttling", cap=cap, ops=ops, interval=iv, inputs=[[0, 0, 1, 1, 0, 2]]))
     if pid == "C08":
@@ -683,6 +697,11 @@ def special_scheds(pid, th, rng):
                     out.append({"cfg": cfg, "cmds": cmds, "epilogue": "drain" if pid == "C05" else "cancel", "origin": "late-consumer"})
                     out.append({"cfg": cfg, "cmds": cmds[:2] + [R()] + cmds[2:4] + [R(), R()], "epilogue": "drain", "origin": "late-consumer"})
     if pid == "C10":
+        # an input longer than any plausible internal batch size (1100 elements), sent in bursts through a buffered channel
+        for par in (1, 2):
+            n = 1100
+            cmds = [B(*([S()] * 50)) for _ in range(n // 50)] + [{"c": "close", "i": 0}, R("res"), R("res")]
+            out.append({"cfg": C(kind="Fold", forked=True, par=par, cap=50, monoid="sum", inputs=[[1 + (i % 3) for i in range(n)]]), "cmds": cmds, "epilogue": "drain", "origin": "long-input"})
         # workers held inside Combine while the rest of the input sits in the buffer and the input is closed; then every order of release
         rel = lambda x: {"c": "release", "x": x}
         for mono, vals in (("prod", [2, 3, 4, 5, 6]), ("min", [5, 4, 3, 2, 6]), ("and", [7, 6, 5, 3, 7]), ("max", [2, 3, 4, 5, 1])):
